@@ -38,7 +38,7 @@ def r19a(ck, fb):
     sc = ck.body(CA + 'set_config', 'R19a')
     if sc:
         sv = util.mut_calls_on_field(sc, 'sequence', re.escape(SU + 'set_valid_last_id') + '$')
-        ck.require(len(sv) == 1, 'R19a', 'set_config:set_valid_last_id', sc.where(), 'set_config no longer raises the sequence to the replicated high-water mark')
+        ck.require(len(sv) >= 1, 'R19a', 'set_config:set_valid_last_id', sc.where(), 'set_config no longer raises the sequence to the replicated high-water mark')
         for s in sv:
             t = Taint(sc, place_src=field_place_src('history_table_id'))
             ck.require(t.op_tainted(s.args[1]), 'R19a', 'set_config:mark<-history_table_id', s.where(), 'the mark is not param.history_table_id')
@@ -49,7 +49,7 @@ def r19a(ck, fb):
     h = ck.body(RAFT_H, 'R19a')
     if h:
         agg = h.aggregates(r'config::model::SetConfigParam$')
-        ck.require(len(agg) == 1, 'R19a', 'ConfigAdd:SetConfigParam', h.where(), 'SetConfigParam not built')
+        ck.require(len(agg) >= 1, 'R19a', 'ConfigAdd:SetConfigParam', h.where(), 'SetConfigParam not built')
         for (i, j, st) in agg:
             rv = st['rv']
             for f in ('history_id', 'history_table_id', 'value', 'op_time'):
@@ -105,7 +105,7 @@ def r19b(ck, fb):
     s2 = ck.body(SD + 'load_snapshot_record', 'R19b')
     if s2:
         ins = util.mut_calls_on_field(s2, 'seq_map', r'HashMap::<K, V, S, A>::insert$')
-        ck.require(len(ins) == 1, 'R19b', 'sequence:load-inserts', s2.where(), 'snapshot record is not inserted into seq_map')
+        ck.require(len(ins) >= 1, 'R19b', 'sequence:load-inserts', s2.where(), 'snapshot record is not inserted into seq_map')
         for s in ins:
             tk = Taint(s2, place_src=field_place_src('key'))
             tv = Taint(s2, place_src=field_place_src('value'))
@@ -145,7 +145,7 @@ def r19c(ck, fb):
     if h:
         for (variant, fn, fld) in (('NextId', 'next_id', '0'), ('NextRange', 'next_range', 'start')):
             agg = h.aggregates(r'sequence::model::SequenceRaftResult$', variant)
-            ck.require(len(agg) == 1, 'R19c', 'SequenceRaftResult::%s' % variant, h.where(), 'result variant not built')
+            ck.require(len(agg) >= 1, 'R19c', 'SequenceRaftResult::%s' % variant, h.where(), 'result variant not built')
             for (i, j, st) in agg:
                 rv = st['rv']
                 t = Taint(h, call_src=lambda t, fn=fn: (t.get('f') or {}).get('d', '').endswith('SequenceDbManager::' + fn))
